@@ -47,9 +47,10 @@ Variable trans : nat -> (V -> L) -> St -> R -> St.      (* acc = sampler.step();
 Variable tune : nat -> nat -> nat -> St -> St.          (* sampler.tune(skip_len, update_count) *)
 Variable nst : nat -> nat.                            (* num_sampling_steps[par_name] *)
 
-(* one record per call of sampler.step(): which block, current_samples at that moment, the target the
+(* one record per call of sampler.step(): which block, which transition of this update (0, 1, ...),
+   current_samples at that moment, the target the
    sampler holds, and the sampler's state (current_point, cached fields) before the transition *)
-Record ev := mkEv { e_blk : nat; e_cur : list V; e_tgt : V -> L; e_s : St }.
+Record ev := mkEv { e_blk : nat; e_j : nat; e_cur : list V; e_tgt : V -> L; e_s : St }.
 
 Record gst := mkG { g_cur : list V; g_ss : list St }.   (* current_samples, samplers *)
 
@@ -58,7 +59,7 @@ Fixpoint steps (i : nat) (t : V -> L) (cur : list V) (n j : nat) (rs : nat -> R)
   match n with
   | O => (s, [])
   | S n' => let r := steps i t cur n' (S j) rs (trans i t s (rs j)) in
-            (fst r, mkEv i cur t s :: snd r)
+            (fst r, mkEv i j cur t s :: snd r)
   end.
 
 (* body of the loop `for par_name in self.par_names` of HybridGibbs.step *)
@@ -111,7 +112,7 @@ Fixpoint run_ops (rnd : nat -> nat -> nat -> R) (ops : list op) (t0 : nat) (x : 
   end.
 End Wiring.
 
-Arguments mkEv {V L St}. Arguments e_blk {V L St}. Arguments e_cur {V L St}. Arguments e_tgt {V L St}. Arguments e_s {V L St}.
+Arguments mkEv {V L St}. Arguments e_blk {V L St}. Arguments e_j {V L St}. Arguments e_cur {V L St}. Arguments e_tgt {V L St}. Arguments e_s {V L St}.
 Arguments mkG {V St}. Arguments g_cur {V St}. Arguments g_ss {V St}.
 Arguments mkRun {V L St}. Arguments r_st {V L St}. Arguments r_stored {V L St}. Arguments r_log {V L St}.
 
